@@ -121,3 +121,11 @@ def field_writers(facts, adt_path, crates=None):
                     if pe["k"] == "field" and pe.get("owner") == adt_path:
                         note(pe["name"], b, "call-dest")
     return out
+
+
+def call_is(t, trait, name):
+    """is term t the result of calling trait::name (statically dispatched to an impl or not)?"""
+    if not (isinstance(t, tuple) and t and t[0] == "call"):
+        return False
+    k = t[1]
+    return k == trait + "::" + name or k.endswith(" as " + trait + ">::" + name)
